@@ -44,7 +44,7 @@ SAN_COMMON = ["-O1", "-g", "-fno-omit-frame-pointer"]
 VARIANTS = {
     # memory safety + value oracles; Eigen assertions on (TAPKEE_DEBUG), libstdc++ assertions on
     "asan": dict(cxx="clang++", std="-std=gnu++20",
-                 flags=SAN_COMMON + ["-fsanitize=address,undefined", "-fno-sanitize=float-cast-overflow",
+                 flags=SAN_COMMON + ["-fsanitize=address,undefined",
                                      "-fno-sanitize-recover=all", "-D_GLIBCXX_ASSERTIONS", "-DTAPKEE_DEBUG",
                                      "-fopenmp"],
                  link=["-fsanitize=address,undefined", "-fopenmp", "-Wl,-z,muldefs", "-rdynamic"]),
